@@ -252,14 +252,14 @@ impl SessionStorageBackend for SqliteSessionStore {
     /// The server-side state is left unchanged.
     #[tracing::instrument(name = "Change id for server-side session record", level = tracing::Level::INFO, skip_all)]
     async fn change_id(&self, old_id: &SessionId, new_id: &SessionId) -> Result<(), ChangeIdError> {
-        let query = sqlx::query(
-            "UPDATE sessions \
-            SET id = ? \
-            WHERE id = ? AND deadline > unixepoch()",
-        )
-        .bind(new_id.inner().to_string())
-        .bind(old_id.inner().to_string());
-        match query.execute(&self.0).await {
+        // A record whose deadline has passed is absent, whether `delete_expired` has got to it
+        // or not: it must not make the rename fail with a duplicate id error.
+        // `rename_live_record` (at the bottom of this file) deletes the row stored under the
+        // new id if, and only if, it has expired, and then renames the record, in a single
+        // transaction. A live record under the new id still trips the primary key constraint,
+        // which is reported as a duplicate id.
+        let outcome = rename_live_record(&self.0, old_id, new_id).await;
+        match outcome {
             Ok(r) => as_unknown_id_error(&r, old_id).map_err(Into::into),
             Err(e) => {
                 if let Err(e) = as_duplicated_id_error(&e, new_id) {
@@ -359,4 +359,32 @@ fn as_unknown_id_error(r: &SqliteQueryResult, id: &SessionId) -> Result<(), Unkn
         "More than one session record was affected, even though the session ID is used as primary key. Something is deeply wrong here!"
     );
     Ok(())
+}
+
+/// Rename the live record stored under `old_id`, after making room for `new_id`:
+/// an expired record that hasn't been deleted yet doesn't own its id.
+async fn rename_live_record(
+    pool: &sqlx::SqlitePool,
+    old_id: &SessionId,
+    new_id: &SessionId,
+) -> Result<sqlx::sqlite::SqliteQueryResult, sqlx::Error> {
+    let mut transaction = pool.begin().await?;
+    sqlx::query(
+        "DELETE FROM sessions \
+        WHERE id = ? AND deadline <= unixepoch()",
+    )
+    .bind(new_id.inner().to_string())
+    .execute(&mut *transaction)
+    .await?;
+    let outcome = sqlx::query(
+        "UPDATE sessions \
+        SET id = ? \
+        WHERE id = ? AND deadline > unixepoch()",
+    )
+    .bind(new_id.inner().to_string())
+    .bind(old_id.inner().to_string())
+    .execute(&mut *transaction)
+    .await?;
+    transaction.commit().await?;
+    Ok(outcome)
 }
